@@ -145,6 +145,39 @@ def _header(stg, c, tmp, R):
             rvb.record(stem, num_blocks=2, length_mode='num_blocks', load_template=c['template'], verbose=False)
         outs.append(scen.hfiles(stem))
     compare(R, [(n.replace('d1', 'd0'), x) for n, x in outs[1]], outs[0], 'default-header-dict-shared-between-recordings')
+    # what a recording writes depends only on backend configuration, antenna state and arguments: the SECOND recording of a
+    # backend must equal the recording a fresh, identically configured backend makes from the same antenna state
+    for period in (1, -1, 2, 3):
+        outs = []
+        for world in range(2):
+            rvb, src = scen._backend(stg, c['seed'] + 3, array=c['array'], bits=8, npol=2)
+            for a_ in range(rvb.num_antennas):
+                for p_ in range(rvb.num_pols):
+                    for q_ in (rvb.requantizer[a_][p_].quantizer_r, rvb.requantizer[a_][p_].quantizer_i, rvb.digitizer[a_][p_]):
+                        q_.stats_calc_period = period
+                    rvb.requantizer[a_][p_].stats_calc_period = period
+            stem = os.path.join(tmp, f'rr{period}_{world}_first')
+            with common.quiet():
+                rvb.record(stem, num_blocks=3, length_mode='num_blocks', header_dict={}, load_template=False, verbose=False)
+            # louder noise for the second scan, so stale statistics are visible
+            for an in (src.antennas if c['array'] else [src]):
+                for st in an.streams:
+                    st.add_noise(0, 3.0)
+            if world == 1:
+                rvb2 = v.RawVoltageBackend(src, digitizer=[[__import__('copy').deepcopy(d_) for d_ in row] for row in rvb.digitizer],
+                                           filterbank=[[v.PolyphaseFilterbank(num_taps=4, num_branches=16) for _ in row] for row in rvb.filterbank],
+                                           requantizer=[[v.ComplexQuantizer(num_bits=8, stats_calc_period=period) for _ in row] for row in rvb.requantizer],
+                                           start_chan=rvb.start_chan, num_chans=rvb.num_chans, block_size=rvb.block_size,
+                                           blocks_per_file=rvb.blocks_per_file, num_subblocks=2)
+                for row in rvb2.digitizer:
+                    for d_ in row:
+                        d_._reset_cache()
+                rvb = rvb2
+            stem = os.path.join(tmp, f'rr{period}_{world}_second')
+            with common.quiet():
+                rvb.record(stem, num_blocks=3, length_mode='num_blocks', header_dict={}, load_template=False, verbose=False)
+            outs.append([(n_.split(':')[-1].replace(f'rr{period}_{world}_', ''), x) for n_, x in scen.hfiles(stem)])
+        compare(R, outs[0], outs[1], 'second-recording-on-a-backend-differs-from-fresh-backend' + ('' if period == 1 else ':period!=1'), period=period)
     raw2 = getattr(v.RawVoltageBackend.record, '__verif_wrapped__', v.RawVoltageBackend.record)
     R.check(raw2.__defaults__ == defaults_before, 'record-default-arguments-changed', before=repr(defaults_before)[:200], after=repr(raw2.__defaults__)[:200])
     R.mark_nontrivial(True)
@@ -251,7 +284,16 @@ def _seeds(stg, c, tmp, R):
     for an in m.antennas:
         an.x.add_noise(0, 1)
         an.y.add_noise(0, 1)
+    for b_ in m.bg_streams:
+        b_.add_noise(0, 1)
     s = m.get_samples(n)
+    indep(m.bg_x.v[:n], m.bg_y.v[:n], 'background-polarisations-share-noise')
+    # background-only array: the antenna outputs ARE the background
+    m2 = v.MultiAntennaArray(num_antennas=2, sample_rate=1e6, num_pols=2, delays=[0, 0], seed=c['seed'] + 5)
+    for b_ in m2.bg_streams:
+        b_.add_noise(0, 1)
+    s2 = m2.get_samples(n)
+    indep(s2[0][0], s2[0][1], 'background-polarisations-share-noise')
     indep(s[0][0], s[1][0], 'antennas-share-noise')
     indep(s[1][1], s[2][1], 'antennas-share-noise')
     indep(s[0][0], s[0][1], 'polarisations-share-noise')
